@@ -1,2 +1,70 @@
-(* Spec/FastqSpec.v — specification-level definitions. *)
+(* Spec/FastqSpec.v — the objects property C02 talks about: the domain of the
+   round trip and the classes of structural corruption. *)
 From Bio Require Import Base.
+From Bio.Model Require Import Fastq.
+
+(* A field free of CR and LF (this also excludes a field ending in CR, which the
+   line reader would strip). *)
+Definition field_ok (s : bytes) : Prop := clean [LF; CR] s.
+Definition field_okb (s : bytes) : bool := cleanb [LF; CR] s.
+
+(* The records C02 quantifies over: name, sequence, qualities free of CR/LF,
+   sequence and qualities of equal length.  No bound on any length. *)
+Definition fq_ok (r : fastq) : Prop :=
+  field_ok (name r) /\ field_ok (seq r) /\ field_ok (quals r)
+  /\ length (seq r) = length (quals r).
+Definition fq_okb (r : fastq) : bool :=
+  field_okb (name r) && field_okb (seq r) && field_okb (quals r)
+  && Nat.eqb (length (seq r)) (length (quals r)).
+
+(* the four lines of a record *)
+Definition record_lines (r : fastq) : list bytes := [AT :: name r; seq r; [PLUS]; quals r].
+(* a text file made of complete lines: every line is followed by LF *)
+Definition unlines (ls : list bytes) : bytes := concat (map (fun l => l ++ [LF]) ls).
+
+Definition count_lf (s : bytes) : nat := count_occ N.eq_dec s LF.
+
+(* ------------------------------------------------------------------ *)
+(* Corruptions.  [c] is the text that follows the valid records.        *)
+
+(* a line body: no LF in it (a CR may be: CRLF files) *)
+Definition no_lf (l : bytes) : Prop := ~ In LF l.
+Definition starts_with (b : byte) (l : bytes) : Prop := exists r, l = b :: r.
+
+(* what comes after a line body: the end of the input (the line is
+   unterminated), or LF followed by whatever *)
+Definition eol (tail : bytes) : Prop := tail = [] \/ exists rest, tail = LF :: rest.
+
+(* the content of a line as a line-oriented reader sees it: without the one
+   trailing CR of a CRLF line end (Base.drop_cr) *)
+Definition content (l : bytes) : bytes := drop_cr l.
+
+(* [text_of ls c]: the text [c] consists of exactly the lines [ls], each
+   followed by LF, except that the last one may be unterminated if it is
+   non-empty. *)
+Inductive text_of : list bytes -> bytes -> Prop :=
+| text_nil : text_of [] []
+| text_last l : no_lf l -> l <> [] -> text_of [l] l
+| text_cons l ls c : no_lf l -> text_of ls c -> text_of (l :: ls) (l ++ LF :: c).
+
+Inductive Corrupt : bytes -> Prop :=
+(* the first line of c does not start with '@' (it may be empty; it may be an
+   unterminated last line); whatever follows *)
+| Corrupt_no_at l1 tail :
+    no_lf l1 -> eol tail -> l1 ++ tail <> [] ->
+    ~ starts_with AT l1 ->
+    Corrupt (l1 ++ tail)
+(* the third line does not start with '+'; whatever follows *)
+| Corrupt_no_plus l1 l2 l3 tail :
+    no_lf l1 -> no_lf l2 -> no_lf l3 -> eol tail ->
+    ~ starts_with PLUS l3 ->
+    Corrupt (l1 ++ LF :: l2 ++ LF :: l3 ++ tail)
+(* the fourth line is not as long as the second; whatever follows *)
+| Corrupt_length l1 l2 l3 l4 tail :
+    no_lf l1 -> no_lf l2 -> no_lf l3 -> no_lf l4 -> eol tail ->
+    length (content l4) <> length (content l2) ->
+    Corrupt (l1 ++ LF :: l2 ++ LF :: l3 ++ LF :: l4 ++ tail)
+(* c ends after one, two or three lines (cut short before the fourth) *)
+| Corrupt_cut ls c :
+    text_of ls c -> (1 <= length ls <= 3)%nat ->
+    Corrupt c.
